@@ -4,6 +4,8 @@ package gnmi
 
 import (
 	"context"
+	"fmt"
+	"os"
 
 	configapi "github.com/onosproject/onos-api/go/onos/config/v2"
 	"github.com/onosproject/onos-config/internal/verifrt"
@@ -43,7 +45,84 @@ func (s *c06PropStore) UpdateStatus(ctx context.Context, p *configapi.Proposal) 
 // the model plugin accepts every document
 type c06Plugin struct{ c03Plugin }
 
-func (p *c06Plugin) Validate(ctx context.Context, jsonData []byte) error { return nil }
+func (p *c06Plugin) Validate(ctx context.Context, jsonData []byte) error {
+	c06Doc, c06DocSeen = verifrt.JSONValue(jsonData), true
+	return nil
+}
+
+// the document the model plugin was last asked to validate (C05: leaf for leaf the configuration that becomes readable)
+var (
+	c06Doc     interface{}
+	c06DocSeen bool
+)
+
+func c06Child(node interface{}, name string) (interface{}, bool) {
+	m, ok := node.(map[string]interface{})
+	if !ok {
+		return nil, false
+	}
+	c, ok := m[name]
+	return c, ok
+}
+
+// c06DocLeaf: the string leaf of universe leaf j in the document (containers a, a/b; list l keyed by k)
+func c06DocLeaf(doc interface{}, j int) (string, bool) {
+	var v interface{}
+	var ok bool
+	switch j {
+	case 0:
+		a, okA := c06Child(doc, "a")
+		b, okB := c06Child(a, "b")
+		v, ok = c06Child(b, "c")
+		ok = ok && okA && okB
+	case 1:
+		a, okA := c06Child(doc, "a")
+		v, ok = c06Child(a, "bc")
+		ok = ok && okA
+	case 2:
+		a, okA := c06Child(doc, "a")
+		v, ok = c06Child(a, "b-x")
+		ok = ok && okA
+	default:
+		key := "1"
+		if j == 4 {
+			key = "10"
+		}
+		l, okL := c06Child(doc, "l")
+		sl, isList := l.([]interface{})
+		if !okL || !isList {
+			return "", false
+		}
+		for _, e := range sl {
+			k, okK := c06Child(e, "k")
+			ks, isStr := k.(string)
+			if okK && isStr && ks == key {
+				v, ok = c06Child(e, "x")
+			}
+		}
+	}
+	str, isStr := v.(string)
+	return str, ok && isStr
+}
+
+// c06CheckDoc: the validated document holds exactly the leaves the reference state machine holds after the change
+func c06CheckDoc(tag string, live *[cfgstore.VLeaves]bool, val *[cfgstore.VLeaves]uint8) {
+	verifrt.Assert(c06DocSeen, tag+"plugin-was-consulted")
+	if !c06DocSeen {
+		return
+	}
+	if !verifrt.Symbolic() && os.Getenv("VERIF_DUMP") != "" {
+		fmt.Printf("VERIF-DUMP %s doc=%v live=%v val=%v\n", tag, c06Doc, *live, *val)
+	}
+	for j := 0; j < cfgstore.VLeaves; j++ {
+		str, ok := c06DocLeaf(c06Doc, j)
+		verifrt.Assert(ok == live[j], tag+"validated-document-holds-exactly-the-leaves-that-become-readable")
+		if ok && live[j] {
+			want := cfgstore.VValue(val[j])
+			verifrt.Assert(str == string(want.Bytes), tag+"validated-document-holds-the-values-that-become-readable")
+		}
+	}
+}
 
 type c06Registry struct{ pluginregistry.PluginRegistry }
 
@@ -156,6 +235,7 @@ func VerifC06History() {
 		c06Props[s] = &configapi.Proposal{ID: proposalstore.NewID("t1", configapi.Index(s)), TargetID: "t1", TransactionIndex: configapi.Index(s),
 			Details: &configapi.Proposal_Change{Change: &configapi.ChangeProposal{Values: stamped}}}
 		c06Props[s].TargetType, c06Props[s].TargetVersion = "ty", "1"
+		c06DocSeen = false
 		if !c06Run(pr, s, true) {
 			return
 		}
@@ -167,6 +247,7 @@ func VerifC06History() {
 				refLive[j], refVal[j] = true, tag
 			}
 		}
+		c06CheckDoc("change-", &refLive, &refVal)
 	}
 	if c06Pipelined {
 		for s := 1; s <= h; s++ {
@@ -180,10 +261,12 @@ func VerifC06History() {
 	c06Props[rb] = &configapi.Proposal{ID: proposalstore.NewID("t1", configapi.Index(rb)), TargetID: "t1", TransactionIndex: configapi.Index(rb),
 		Details: &configapi.Proposal_Rollback{Rollback: &configapi.RollbackProposal{RollbackIndex: configapi.Index(h)}}}
 	c06Props[rb].TargetType, c06Props[rb].TargetVersion = "ty", "1"
+	c06DocSeen = false
 	if !c06Run(pr, rb, true) {
 		return
 	}
 	verifrt.Cover("rolled-back")
+	c06CheckDoc("rollback-", &snapLive, &snapVal)
 	c06Check(ctx, srv, &snapLive, &snapVal, "after-rollback-")
 	// ---- the same rollback once more: refused (the change is no longer the latest one), nothing altered
 	if verifrt.Param("again") == 1 {
